@@ -341,6 +341,33 @@ Proof.
   apply Z.eqb_eq in P. now subst h.
 Qed.
 
+(* the generated cipher / MAC tables agree, row by row and by NAME, with the hand-written RFC tables; hence the
+   lengths asked of _compute_key are the lengths the negotiated algorithm names specify *)
+Lemma tables_match_spec_ok : tables_match_spec = true.
+Proof. vm_compute. reflexivity. Qed.
+
+Theorem tables_spec r d c m :
+  In c gen_ciphers -> In m gen_macs ->
+  exists k iv b dg tg,
+    lookup_name spec_ciphers (c_name c) = Some (k, iv, b) /\
+    lookup_name spec_macs (m_name m) = Some (dg, tg) /\
+    snd (requested r d IV c m) = iv /\ snd (requested r d EncKey c m) = k /\
+    snd (requested r d MacKey c m) = dg /\ c_block c = b /\ m_size m = tg.
+Proof.
+  intros Hc Hm. pose proof tables_match_spec_ok as P. unfold tables_match_spec in P.
+  apply andb_true_iff in P as [Pm Pc]. rewrite forallb_forall in Pm, Pc.
+  specialize (Pm m Hm). specialize (Pc c Hc).
+  unfold mac_matches_spec in Pm. unfold cipher_matches_spec in Pc.
+  destruct (lookup_name spec_macs (m_name m)) as [[dg tg]|]; [|discriminate Pm].
+  destruct (lookup_name spec_ciphers (c_name c)) as [[[k iv] b]|]; [|discriminate Pc].
+  destruct (requested_sizes r d c m) as [A [B C]].
+  exists k, iv, b, dg, tg. rewrite A, B, C.
+  destruct (c_iv c); repeat split; lia.
+Qed.
+
+Lemma example_pair_exists_ok : example_pair_exists = true.
+Proof. vm_compute. reflexivity. Qed.
+
 (* ---- non-vacuity material ---------------------------------------------------------------------- *)
 Lemma toy_hash_len hl m : length (toy_hash hl m) = hl.
 Proof.
